@@ -5,6 +5,20 @@ import binascii
 MODULE = "PestModel.Thm.C01"
 DRV, MODE = "drv_sem", "grammar"
 LISTER_ID = "C05-lister-not-preserving"
+WSLEAK_ID = "C01-whitespace-stack-leak"
+
+
+def ws_modifies_stack(op):
+    """the grammar's WHITESPACE or COMMENT rule contains a stack operation"""
+    import re
+    for m in re.finditer(r"\(rule (WHITESPACE|COMMENT) \w ", op):
+        depth, k = 1, m.end()
+        while k < len(op) and depth > 0:
+            depth += (op[k] == "(") - (op[k] == ")"); k += 1
+        body = op[m.end():k]
+        if re.search(r"\(id (POP|POP_ALL|DROP|PEEK|PEEK_ALL)\)|\(push |\(pushlit |\(peekslice ", body):
+            return True
+    return False
 
 
 def split_case(op, j):
@@ -18,6 +32,7 @@ def run(ctx):
     allcs, stats, found_input = [], {}, False
     lister_known = ctx.match_known(lambda k: k["id"] == LISTER_ID) or \
         next((k for k in load_known() if k.get("id") == LISTER_ID and k.get("status") == "known"), None)
+    wsleak_known = next((k for k in load_known() if k.get("id") == WSLEAK_ID and k.get("status") == "known"), None)
     for fs in ("default", "extras"):
         ok, out, bindir, _ = cargo_build(fs, [DRV])
         if not ok:
@@ -48,7 +63,9 @@ def run(ctx):
                 for j, (x, y) in enumerate(zip(a, b)):
                     if x != y:
                         # the disagreement disappears when the `list` pass is left out (hook H2): the lister finding
-                        if lister_known and nolist.get(j) == y:
+                        if wsleak_known and ws_modifies_stack(op):
+                            ctx.known_finding(WSLEAK_ID, "a WHITESPACE/COMMENT rule that pops the stack and then fails leaves the stack popped (implicit skips are not wrapped by the restorer): WHITESPACE = _{ POP }, r = { PUSH(\"a\") ~ \"b\" ~ PEEK } panics on \"aba\"")
+                        elif lister_known and nolist.get(j) == y:
                             ctx.known_finding(LISTER_ID, "optimizer `list` pass rewrites (a ~ b)* ~ a into a ~ (b ~ a)*, which changes the language (e.g. accepts a prefix of \"abab\"); Vm::parse then differs from the documented semantics")
                         else:
                             unlisted.append((split_case(op, j), x, y))
